@@ -100,6 +100,16 @@ func (c *StructCase) call(src interface{}) error {
 			return valid.StructForFn(src, toRM(c.Unscoped), c.Tag)
 		}
 		return valid.StructForFn(src, toRM(c.Unscoped))
+	case "ValidStructForRule": // deprecated alias of StructForFn
+		if c.Tag != "" {
+			return valid.ValidStructForRule(toRM(c.Unscoped), src, c.Tag)
+		}
+		return valid.ValidStructForRule(toRM(c.Unscoped), src)
+	case "ValidStructForMyValidFn": // deprecated: exactly one per-call function, no rule set
+		if c.Tag != "" {
+			return valid.ValidStructForMyValidFn(src, c.CallFns[0], customFn("call", c.CallFns[0]), c.Tag)
+		}
+		return valid.ValidStructForMyValidFn(src, c.CallFns[0], customFn("call", c.CallFns[0]))
 	case "StructForFns":
 		fm := valid.Name2FnMap{}
 		for _, n := range c.CallFns {
@@ -136,9 +146,12 @@ func (c *StructCase) call(src interface{}) error {
 func (c *StructCase) pickEntry(choice int) {
 	var ok []string
 	ok = append(ok, "VStruct")
+	if len(c.PerType) == 0 && len(c.CallFns) == 1 && c.Unscoped == nil {
+		ok = append(ok, "ValidStructForMyValidFn")
+	}
 	if len(c.PerType) == 0 && len(c.CallFns) == 0 {
 		if c.Unscoped != nil {
-			ok = append(ok, "StructForFn")
+			ok = append(ok, "StructForFn", "ValidStructForRule")
 			if c.Tag == "" {
 				ok = append(ok, "Struct")
 			}
